@@ -727,6 +727,28 @@ def client_connection_pool(seed, variant):
     return sim, stats
 
 
+@scenario
+def client_pool_starved(seed, variant):
+    """PooledClients whose wait for a connection outlasts their own request timeout (round-9 seed C07-16: a
+    timeout stamped from an instant captured before the pool wait lands in the past)."""
+    from happysimulator.components.client import ConnectionPool, PooledClient
+
+    _seed(seed)
+    v = variant % 3
+    db = DelayServer("db", delay=[0.5, 0.3, 0.45][v])
+    pool = ConnectionPool("pool", target=db, min_connections=0, max_connections=1,
+                          connection_timeout=[0.7, 0.9, 0.6][v], idle_timeout=5.0,
+                          connection_latency=ConstantLatency([0.01, 0.0, 0.005][v]))
+    clients = [PooledClient(f"pclient{i}", connection_pool=pool, timeout=[0.2, 0.1, 0.25][v]) for i in range(2)]
+    srcs = [client_source(f"src{i}", c, [4, 6, 5][v], poisson=False, stop_after=2.0) for i, c in enumerate(clients)]
+    sim = Simulation(sources=srcs, entities=[db, pool, *clients], duration=5.0)
+
+    def stats():
+        return {"db": pub(db), "pool": pub(pool), "clients": [pub(c) for c in clients]}
+
+    return sim, stats
+
+
 # ---------------------------------------------------------------------------
 # load balancers
 # ---------------------------------------------------------------------------
